@@ -175,7 +175,7 @@ NoDup(o) == \A i, j \in 1..Len(o) : i # j => o[i] # o[j]
 CONSTANTS NameSeq,      \* e.g. <<"a", "b", "c">>
           GlobalNames,  \* names that are global aliases when defined
           LineFam,      \* which family of lines (see Lines)
-          Prune         \* TRUE: emit a case only if every defined alias occurs in it
+          Prune         \* TRUE: only (table, line) pairs in which every defined alias can occur (see Reach)
 
 NameSeq3 == <<"a", "b", "c">>          \* cfg files cannot write tuples
 NameSeq4 == <<"a", "b", "c", "d">>
